@@ -53,17 +53,23 @@ LEVEL_TEXT = ("Coq proofs about the executable model pag_to_mag_model (three pha
               "component the first hand-orientation is always extendable), p2m_shape_all_sizes_chordal (hypotheses: pag_hyps, "
               "chordal circle component, extendability of the rounds AFTER the first), p2m_component_one_round (no further "
               "hypothesis when the first round orients the whole component). "
+              "Round by round (C09/Rounds.v): rounds_extendable_from_meek4 reduces ALL rounds to one graph-theoretic statement "
+              "meek4_on P (closed under R1-R4 + v-structure-free extension => every undirected edge orientable either way, on the "
+              "skeleton class P); meek4_holds_on_cluster_graphs proves it for all sizes when the component is a disjoint union of "
+              "cliques, giving p2m_shape_all_sizes_cluster with pag_hyps as the only other hypothesis; "
+              "p2m_shape_all_sizes_from_meek4 gives the chordal case from the single hypothesis meek4_on chordal_skel. "
               "BOUNDED discharge of rounds_extendable (Meek's lemma on chordal graphs) — meek_chordal_orientation_bounded_5 / "
               "chordal_iff_vfree_extension_bounded_5: all 1024 undirected graphs on <=5 nodes; pag_hyps_hold_on_pags_of_mags_bounded_3. "
               "REFUTED for the assembly as coded before the repair — p2m_structure_code_refuted. "
               "BY CORRESPONDENCE — the implementation's own result on PAGofMAG(n) and on MARKS(n) passes the same oracle "
               "verdicts (witness validity, not identity), argument unchanged; the unbounded membership clause (Zhang 2008 Thm 2) "
               "is stated (p2m_member_full) and not attempted.")
-LEVEL_NOTE = ("MISSING for an unconditional all-sizes shape theorem: (i) chordal circle component => rounds_extendable for the rounds "
-              "AFTER the first (the first round is proved for all sizes from the PEO theory of C08/Chordal.v): in a graph closed "
-              "under R1-R4 that still has a v-structure-free extension, every remaining undirected edge is extendable in both "
-              "directions (Meek 1995 Thm 4 with background knowledge; the closed graph is not a chain graph, R3/R4 are needed; proved "
-              "here only by kernel computation for all graphs on <=5 nodes), "
+LEVEL_NOTE = ("MISSING for an unconditional all-sizes shape theorem: (i) the single statement meek4_on chordal_skel (Meek 1995 Thm 4 on "
+              "chordal skeletons: a PDAG closed under R1-R4 with a v-structure-free extension keeps one after hand-orienting any "
+              "undirected edge u - v as u -> v). Proved: first round (all sizes), cluster skeletons (all sizes), all graphs on <=5 "
+              "nodes (kernel). A paper reduction (not formalised): by induction on the number of nodes, removing a sink s <> u of "
+              "some extension, it suffices to show that u cannot be the UNIQUE sink of EVERY v-structure-free extension of a closed "
+              "PDAG that has an undirected edge at u; "
               "(ii) pag_hyps for the PAG of every MAG (Zhang 2008 Lemma 3.3.1; kernel-checked n<=3, harness-checked n<=4 and on the "
               "chordal 5-6 node stream through the booleans pag_hypsb / rounds_ok_b in run_case mode 1); bounded theorems are stated with the boolean oracles (msep_dec; its reflection to the Prop msep is Graph/MSepDec.v, "
               "not imported here); which undirected edge the temporary CPDAG yields first is not modelled (any order is covered by "
